@@ -90,6 +90,29 @@ CHECKS = {
    design_ref="DESIGN.md §7 C16",
    technique="Lean 4 theorems over Rat model of the angle test and re-alignment + differential check against ForceMatrix",
    note=BASE_NOTE + " arccos/cos are IEEE functions; the exact model decision uses the float's rational cos(limit)."),
+ "C12": dict(
+   category="proof",
+   text="Theorems about the model of create_mapping/find_best/get_point_id_by_map for all pools, guesses and constants: find_best only "
+        "returns untaken pool vertices; guesses are kept; every end point gets an entry; values are end points of the next frame; the map is "
+        "injective on real values; small-motion theorem: if every end point's successor is strictly its nearest end point and lies inside some "
+        "search radius (implied by the property's bounds), every end point is mapped to its successor whatever the numbering and processing "
+        "order; the radii with the code's constants are 0.005..0.08 of the extent; forward-then-backward returns the start over any number "
+        "of frames. Per run: every step's mapping dictionary and multi-frame tracking queries compared exactly with the model on the coordinates "
+        "the code sees (centre-of-mass shifts replayed and verified), and the property's clauses asserted on steps whose premises are measured to hold.",
+   design_ref="DESIGN.md §7 C12",
+   technique="Lean 4 theorems over Rat model of the tracking algorithm + exact differential check against TimeSeries",
+   note=BASE_NOTE + " Steps with a squared distance within 1e-9 of a search radius or of another candidate are excluded from the exact comparison."),
+ "C13": dict(
+   category="proof",
+   text="Theorems: forward difference (partner's position minus own over the time-stamp difference), backward difference at the last frame "
+        "(through the inverted step map), zero velocity for untracked vertices, exception instead of a number when a step has no map; the "
+        "right-hand side holds each junction's components at its own row pair and zero elsewhere, all zero in static mode. Per run: every "
+        "velocity of every end point at every frame and the placed right-hand side compared with the model (1e-12 / exactly) and with an "
+        "independent finite difference from the known successor table; the adimensional divisor and get_system_velocity_per_frame against the "
+        "mean junction speed (this clause needs sqrt and is decided by the oracle, not a theorem).",
+   design_ref="DESIGN.md §7 C13",
+   technique="Lean 4 theorems over Rat model of calculate_velocity and row placement + differential check",
+   note=BASE_NOTE),
 }
 
 NOT_APPLICABLE = {
